@@ -491,7 +491,7 @@ PROPERTIES = {
     "C10": dict(level="exploration", parts=e4_parts("C10", dict(quick=100000, thorough=800000), dict(quick=12, thorough=40)) + [fuzz_part("vecconv", "C10", dict(quick=0, thorough=600000), 128)]),
     "C12": dict(level="exploration", parts=e1_parts("C12", dict(quick=400000, thorough=4000000)) + [fuzz_part("layout", "C12", dict(quick=0, thorough=250000), 256)]),
     "C11": dict(level="exploration", parts=[e5_part("C11", dict(quick=1500, thorough=10000))]),
-    "C13": dict(level="exploration", parts=e1_parts("C13", dict(quick=60000, thorough=800000)) + [e5_part("C13", dict(quick=120, thorough=1500))] + [fuzz_part("layout", "C13", dict(quick=0, thorough=60000), 256)]),
+    "C13": dict(level="exploration", parts=e1_parts("C13", dict(quick=60000, thorough=800000)) + [e5_part("C13", dict(quick=120, thorough=1500))] + [fuzz_part("layout", "C13", dict(quick=0, thorough=20000), 256)]),
     "C14": dict(level="exploration", parts=[e5_part("C14", dict(quick=250, thorough=2000))]),
     "C17": dict(level="exploration", parts=[e5_part("C17", dict(quick=1500, thorough=20000))]),
     "C18": dict(level="exploration", parts=e1_parts("C18", dict(quick=80000, thorough=800000))),
